@@ -374,6 +374,27 @@ func (c *Ctx) c07ReencodeCase() {
 	c.c07TameFile()
 }
 
+// ReadMesh → WriteMesh on a file: the model predicts the exact re-saved records (zero header, attribute 0,
+// positions re-narrowed, normals re-derived) — an ordinary correspondence line
+func (c *Ctx) c07ResaveMesh(bs []byte) {
+	ans := Guard(func() string {
+		m, err := stl.ReadMesh(bytes.NewReader(bs))
+		if err != nil {
+			return "err"
+		}
+		var o bytes.Buffer
+		if err := stl.WriteMesh(&o, *m); err != nil {
+			return "err"
+		}
+		p, ok := c07Parse(o.Bytes())
+		if !ok {
+			return "unparseable"
+		}
+		return "ok " + c07Bin(p, true)
+	})
+	c.Emit("c07.resavemesh", hx(bs), ans)
+}
+
 // a file with tame coordinates and a mixture of zero / non-unit / unit stored normals: the geometric
 // fallback of ReadMesh, checked against the geometric statement itself
 func (c *Ctx) c07TameFile() {
@@ -396,6 +417,19 @@ func (c *Ctx) c07TameFile() {
 	}
 	if _, back := c07ReadMeshAns(buf.Bytes()); back != nil {
 		c.Emit("c07.holds.geometric_fallback", hx(buf.Bytes())+" "+c07Mesh(*back), "true")
+	}
+	// same file with a non-zero header and attribute words through ReadMesh → WriteMesh
+	if c.Rng.Intn(2) == 0 {
+		c.Rng.Read(b.Header[:])
+	}
+	for i := range b.Triangles {
+		if c.Rng.Intn(2) == 0 {
+			b.Triangles[i].Attribute = uint16(1 + c.Rng.Intn(65535))
+		}
+	}
+	var buf2 bytes.Buffer
+	if err := stl.Write(&buf2, b); err == nil {
+		c.c07ResaveMesh(buf2.Bytes())
 	}
 }
 
@@ -427,6 +461,7 @@ func (c *Ctx) c07MalformedCase() {
 	ans, _ := c07ReadMeshAns(bs)
 	c.Emit("c07.readmesh", hx(bs), ans)
 	c.c07Readers(bs, c.Rng.Intn(8) == 0) // truncated / over-long inputs through the reader family as well
+	c.c07ResaveMesh(bs)
 }
 
 func (c *Ctx) c07MeshCase(oob bool) {
